@@ -155,6 +155,11 @@ class Run:
         g = z3.simplify(goal)
         if z3.is_true(g):
             return
+        seen = self.__dict__.setdefault("safety_seen", set())
+        if goal.get_id() in seen:
+            return
+        seen.add(goal.get_id())
+        self._keep.append(goal)
         n = sum(1 for o in self.obls if o.kind == "safety")
         self.oblige(f"safe.{what}.{n}", "safety", goal)
         # after the check the operation is taken to have succeeded
@@ -604,8 +609,14 @@ def div(a, b):
     run.safety("div", eb != 0)
     if ca == 0:
         return SReal(rv(0))
+    memo = run.__dict__.setdefault("memo", {})
+    key = ("div", ea.get_id(), eb.get_id())
+    if key in memo:
+        return SReal(memo[key][2])
     q = run.fresh("q")
-    run.add_def(q, q * eb == ea)
+    run.add_def(q, q * eb == ea, eb != 0)
+    memo[key] = (ea, eb, q)
+    run.__dict__.setdefault("quot", {})[str(q)] = (ea, eb)
     return SReal(q)
 
 
@@ -793,11 +804,46 @@ def _reg_trig(atom, c, s):
     run._keep.append(atom)
 
 
+def _resolve_pi_multiple(t):
+    """if the path facts entail t == k*pi/2 for an integer k, return k (else None).
+    Only used when the contract switches `run.trig_resolve` on."""
+    run = cur()
+    hyps = run.context(t == 0)
+    s = z3.Solver()
+    s.set("timeout", 3000)
+    s.add(*hyps)
+    if s.check() != z3.sat:
+        return None
+    m = s.model()
+    try:
+        tv = m.eval(t, model_completion=True)
+        tv = float(tv.as_fraction()) if z3.is_rational_value(tv) else float(tv.approx(12).as_fraction())
+    except Exception:
+        return None
+    k = round(2 * tv / math.pi)
+    if abs(k) > 16:
+        return None
+    s2 = z3.Solver()
+    s2.set("timeout", 5000)
+    s2.add(*hyps)
+    s2.add(t != rv(Fraction(k, 2)) * run.pi)
+    if s2.check() == z3.unsat:
+        return k
+    return None
+
+
 def _atom_pair(t):
     run = cur()
     hit = run.trig.get(t.get_id())
     if hit is not None:
         return hit[1], hit[2]
+    if getattr(run, "trig_resolve", False) and not z3.is_const(t):
+        k = _resolve_pi_multiple(t)
+        if k is not None:
+            c0, s0 = _HALF_PI_TABLE[k % 4]
+            run.axioms_used.add("cos/sin at multiples of pi/2")
+            _reg_trig(t, rv(c0), rv(s0))
+            return rv(c0), rv(s0)
     n = next(run.counter)
     c, s = z3.Real(f"cos!{n}"), z3.Real(f"sin!{n}")
     circ = c * c + s * s == 1
@@ -863,6 +909,21 @@ def cossin(t):
     if z3.is_app_of(t, z3.Z3_OP_MUL) and t.num_args() == 2:
         a, b = t.arg(0), t.arg(1)
         k, u = (num_of(a), b) if num_of(a) is not None else (num_of(b), a)
+        if k is None:
+            # distribute a product over a sum: n*(t1+t2) -> n*t1 + n*t2
+            for x, y, left in ((a, b, True), (b, a, False)):
+                if z3.is_app_of(y, z3.Z3_OP_ADD) or (z3.is_app_of(y, z3.Z3_OP_SUB) and y.num_args() == 2):
+                    parts = [(x * ch) if left else (ch * x) for ch in y.children()]
+                    if z3.is_app_of(y, z3.Z3_OP_ADD):
+                        tt = parts[0]
+                        for p_ in parts[1:]:
+                            tt = tt + p_
+                    else:
+                        tt = parts[0] - parts[1]
+                    return cossin(tt)
+                if z3.is_app_of(y, z3.Z3_OP_UMINUS):
+                    c_, s_ = cossin((x * y.arg(0)) if left else (y.arg(0) * x))
+                    return c_, -s_
         if k is not None:
             if k.denominator == 1 and abs(k) <= 8:
                 base = cossin(u)
@@ -1272,6 +1333,12 @@ class Dual:
 # --------------------------------------------------------------------------------------------
 # helpers for contracts
 # --------------------------------------------------------------------------------------------
+
+def uf(name, *args):
+    """application of an uninterpreted real function (abstracts a callee by its purity only)"""
+    f = z3.Function(name, *([z3.RealSort()] * len(args)), z3.RealSort())
+    return SReal(f(*[real_expr(a) for a in args]))
+
 
 def is_sym(x):
     if isinstance(x, (SNum, SBool, Dual)):
